@@ -682,7 +682,7 @@ find_schema_child(const struct lysc_node *sparent, const char *modname_colon_nam
 #define REFUSE(why) do { fputs(" R:" why, stdout); return; } while (0)
 #define MARK(f) do { if (law_mode) { fputs(" X:" f, stdout); fflush(stdout); } } while (0)
 
-/* a sibling ring that does not end (F50): nothing below may be walked any more */
+/* a sibling ring that does not end (F140): nothing below may be walked any more */
 static int
 forest_cyclic(void)
 {
@@ -816,7 +816,7 @@ run_op(char *op, int last)
             if (s->flags & LYS_KEYLESS) r = lyd_new_list(parent, m, nm, 0, &node);
             else r = lyd_new_list(parent, m, nm, 0, &node, val);
         } else {
-            if ((s->flags & LYS_KEY) && parent) MARK("F52");
+            if ((s->flags & LYS_KEY) && parent) MARK("F142");
             r = lyd_new_term(parent, m, nm, val, 0, &node);
         }
         free(val);
@@ -849,7 +849,7 @@ run_op(char *op, int last)
             if ((t->schema->nodetype & LYD_NODE_INNER) &&
                     (!n->schema || lysc_data_parent(n->schema) == t->schema) && is_multi_move(n)) REFUSE("OutOfFragment");
         }
-        if (is_multi_move(n)) MARK("F54");
+        if (is_multi_move(n)) MARK("F144");
         done(lyd_insert_child(t, n), search);
     } else if (!strcmp(a[0], "ins_sibling") && na == 3) {
         struct lyd_node *n = node_arg(a[1]), *t = node_arg(a[2]);
@@ -864,9 +864,9 @@ run_op(char *op, int last)
                 if (lyd_first_sibling(t) == n) REFUSE("OutOfFragment");
             }
         }
-        if (n != t && n->schema && !t->schema) MARK("F51");   /* no schema check at all next to an opaque sibling */
-        if (n != t && lyd_first_sibling(t) == n) MARK("F50");
-        if (n != t && is_multi_move(n)) MARK("F54");
+        if (n != t && n->schema && !t->schema) MARK("F141");   /* no schema check at all next to an opaque sibling */
+        if (n != t && lyd_first_sibling(t) == n) MARK("F140");
+        if (n != t && is_multi_move(n)) MARK("F144");
         done(lyd_insert_sibling(t, n, NULL), search);
     } else if ((!strcmp(a[0], "ins_before") || !strcmp(a[0], "ins_after")) && na == 3) {
         struct lyd_node *n = node_arg(a[1]), *t = node_arg(a[2]);
@@ -879,7 +879,7 @@ run_op(char *op, int last)
                 if (lysc_is_userordered(n->schema) && !t->schema) REFUSE("OutOfFragment");
             }
         }
-        if (n != t && (!n->schema || !t->schema)) MARK("F51");
+        if (n != t && (!n->schema || !t->schema)) MARK("F141");
         done(a[0][4] == 'b' ? lyd_insert_before(t, n) : lyd_insert_after(t, n), search);
     } else if (!strcmp(a[0], "unlink") && na == 2) {
         struct lyd_node *n = node_arg(a[1]);
@@ -974,7 +974,7 @@ run_op(char *op, int last)
         if (!src || !dst) REFUSE("NoNode");
         if (src->parent || dst->parent) REFUSE("NotTop");
         if (!strcmp(a[0], "merge") && (has_opaque(src) || has_opaque_siblings(lyd_first_sibling(dst)))) REFUSE("OpaqInMerge");
-        if (!strcmp(a[0], "merge_opaq")) MARK("F55");
+        if (!strcmp(a[0], "merge_opaq")) MARK("F145");
         dst = lyd_first_sibling(dst);
         if (!all_toplevel_schema(dst) || !src->schema || lysc_data_parent(src->schema)) REFUSE("NotTop");
         if (lyd_first_sibling(src) == dst) REFUSE("SameTree");
@@ -997,7 +997,7 @@ run_op(char *op, int last)
         if (n->parent) REFUSE("NotTop");
         n = lyd_first_sibling(n);
         if (!all_toplevel_schema(n)) REFUSE("NotTop");
-        if (modules_in(n) > 1) MARK("F53");
+        if (modules_in(n) > 1) MARK("F45");
         drop_defaults(n);       /* default nodes may be deleted by the validation: forget their ids first */
         LY_ERR r = lyd_validate_all(&n, NULL, LYD_VALIDATE_PRESENT, NULL);
         if (n) { struct lyd_node *it; LY_LIST_FOR(lyd_first_sibling(n), it) register_new(it); }
